@@ -60,6 +60,7 @@ type tScenario struct {
 	UnitNs    int64          `json:"unit_ns"`
 	Grace     int64          `json:"grace"`
 	Readers   bool           `json:"readers"`
+	Alt       int            `json:"alt"`
 }
 
 var errCoop = &coopErr{}
@@ -117,6 +118,7 @@ func runTScenario(t *testing.T, raw []byte) (lines []M, problem string) {
 	delete(cfgAny, "unit_ns")
 	delete(cfgAny, "grace")
 	delete(cfgAny, "readers")
+	delete(cfgAny, "alt")
 	func() {
 		defer func() {
 			if r := recover(); r != nil {
@@ -124,7 +126,7 @@ func runTScenario(t *testing.T, raw []byte) (lines []M, problem string) {
 			}
 		}()
 		synctest.Test(t, func(t *testing.T) {
-			rec := &recorder{unit: unit, tmode: true, t0: time.Now(), tld: time.Duration(sc.Tld) * unit}
+			rec := &recorder{unit: unit, tmode: true, t0: time.Now(), tld: time.Duration(sc.Tld) * unit, alt: sc.Alt}
 			rec.lines = append(rec.lines, M{"ev": "Config", "cfg": cfgAny, "t": 0})
 			bs := buildStack(sc.Stack, unit, rec)
 			calls := make([]int, sc.Nx+1)
@@ -135,15 +137,18 @@ func runTScenario(t *testing.T, raw []byte) (lines []M, problem string) {
 				calls[x]++
 				k := calls[x]
 				callExecs[x] = append(callExecs[x], exec)
+				// double collect of everything the line reports (counters are shared atomics; LastError() and IsCanceled()
+				// depend on the context): two identical consecutive collects are a snapshot of one instant
 				att, exe, ret, hdg := stableCounters(exec)
-				// LastError() and IsCanceled() both depend on the context: read them until two reads agree
 				le, canc := exec.LastError(), exec.IsCanceled()
 				for i := 0; i < 100; i++ {
+					att2, exe2, ret2, hdg2 := stableCounters(exec)
 					le2, canc2 := exec.LastError(), exec.IsCanceled()
-					if le2 == le && canc2 == canc {
+					same := att2 == att && exe2 == exe && ret2 == ret && hdg2 == hdg && le2 == le && canc2 == canc
+					att, exe, ret, hdg, le, canc = att2, exe2, ret2, hdg2, le2, canc2
+					if same {
 						break
 					}
-					le, canc = le2, canc2
 				}
 				rec.lines = append(rec.lines, M{"ev": "FnStart", "x": x, "L": len(sc.Stack) + 1, "k": k, "t": rec.vnow(),
 					"att": att, "exe": exe, "ret": ret, "hdg": hdg,
